@@ -26,13 +26,18 @@ import (
 	"verif/harness/hcommon"
 )
 
+const (
+	outQueue = 64 // per-client outbound queue of both servers
+	window   = 16 // publications a publisher keeps in flight (plus one INVOCATION: well below outQueue)
+)
+
 func main() {
 	seed := flag.Int64("seed", 1, "")
 	tier := flag.String("tier", "quick", "")
 	out := flag.String("out", ".", "")
 	prop := flag.String("property", "C11", "")
 	iters := flag.Int("iters", 300, "publications and calls per realm and connection kind")
-	patience := flag.Int("patience", 90, "seconds after which the run counts as hung")
+	patience := flag.Int("patience", 90, "seconds without any delivery after which the run counts as hung")
 	flag.String("replay", "", "")
 	flag.Parse()
 	sum := &hcommon.Summary{Family: "transrace", Property: *prop, Seed: *seed, Tier: *tier,
@@ -68,14 +73,22 @@ func main() {
 		return
 	}
 	defer r.Close()
-	wsCloser, err := router.NewWebsocketServer(r).ListenAndServe("127.0.0.1:0")
+	// The per-client outbound queue is set explicitly: the broker drops an EVENT for a
+	// session whose queue is full (that is allowed), so the run keeps fewer messages in
+	// flight towards any session (window below) than the queue holds; then none may be
+	// dropped and each subscriber must see every publication of its pair, in order.
+	wss := router.NewWebsocketServer(r)
+	wss.OutQueueSize = outQueue
+	wsCloser, err := wss.ListenAndServe("127.0.0.1:0")
 	if err != nil {
 		bad(nil, err.Error(), "listener", "websocket listener")
 		finish()
 		return
 	}
 	defer wsCloser.Close()
-	rsCloser, err := router.NewRawSocketServer(r).ListenAndServe("tcp", "127.0.0.1:0")
+	rss := router.NewRawSocketServer(r)
+	rss.OutQueueSize = outQueue
+	rsCloser, err := rss.ListenAndServe("tcp", "127.0.0.1:0")
 	if err != nil {
 		bad(nil, err.Error(), "listener", "rawsocket listener")
 		finish()
@@ -143,14 +156,24 @@ func main() {
 			wg.Add(2)
 			go func() { // publisher
 				defer wg.Done()
+				acked := 0
 				for i := 0; i < *iters; i++ {
+					for i-acked >= window {
+						select {
+						case <-got:
+							acked++
+						case <-time.After(30 * time.Second):
+							bad(in, fmt.Sprintf("%d events", acked), fmt.Sprintf("%d events", i), "events of the realm's own publications are missing")
+							return
+						}
+					}
 					tag := fmt.Sprintf("%s/%s/%d", realm, k.name, i)
 					if err := pub.Publish(topic, wamp.Dict{"acknowledge": true}, wamp.List{tag}, nil); err != nil {
 						bad(in, err.Error(), "PUBLISHED", "publish failed")
 						return
 					}
 				}
-				for i := 0; i < *iters; i++ {
+				for i := acked; i < *iters; i++ {
 					select {
 					case <-got:
 					case <-time.After(30 * time.Second):
@@ -182,12 +205,25 @@ func main() {
 	}
 	done := make(chan struct{})
 	go func() { wg.Wait(); close(done) }()
-	select {
-	case <-done:
-	case <-time.After(time.Duration(*patience) * time.Second):
-		bad(nil, "still running", "finished", fmt.Sprintf("the concurrent transport run did not finish within %d s", *patience))
-		finish()
-		os.Exit(0)
+	// hung = no delivery at all for `patience` seconds (a slow machine is not a hang)
+	last, idle := -1, 0
+wait:
+	for {
+		select {
+		case <-done:
+			break wait
+		case <-time.After(time.Second):
+			mu.Lock()
+			cur := sum.Evaluations
+			mu.Unlock()
+			if cur != last {
+				last, idle = cur, 0
+			} else if idle++; idle >= *patience {
+				bad(nil, "still running", "finished", fmt.Sprintf("the concurrent transport run made no progress for %d s", *patience))
+				finish()
+				os.Exit(0)
+			}
+		}
 	}
 	for _, c := range closers {
 		c.Close()
